@@ -491,8 +491,94 @@ def run_forked_owner(case, ctx, mon):
     mon.nontrivial(True)
 
 
+TEMPLATES = (
+    # (round 8, seed C16-N) a resource a view released is handed to the next owner, and released once more when the view is dropped
+    ["own 0", "view 0", "own 1", "dropview 0", "drop 1", "drop 0"],
+    ["own 0", "view 0", "view 0", "own 1", "own 2", "dropview 0", "drop 2", "dropview 0", "drop 1", "drop 0"],
+    ["own 0", "own 1", "view 1", "drop 0", "own 2", "dropview 1", "drop 2", "drop 1"],
+)
+
+
+def run_interleaved(case, ctx, mon):
+    """Owners and views of several classes created and dropped in an interleaved order: whatever an earlier handle released
+    (descriptor numbers, names, addresses) is handed to the next one.  After every step each live owner still holds its contents;
+    a dropped view leaves its segment, a dropped owner's segment is gone, and no other owner's segment disappears with it."""
+    cfgs = case["cfgs"]
+    owners, views = {}, {}
+
+    def content_ok(i):
+        o, cfg = owners[i]["obj"], cfgs[i % len(cfgs)]
+        k = b"owner-%d" % i
+        if cfg["kind"] == "hll":
+            return float(o.query()) > 0
+        return float(o[k] if cfg["kind"] == "hh" else o.query(k)) >= 1
+
+    for step in case["steps"]:
+        what, i = step.split()
+        i = int(i)
+        cfg = cfgs[i % len(cfgs)]
+        if what == "own":
+            o = make_by(cfg, "class", True)
+            o.add(b"owner-%d" % i) if cfg["kind"] in ("hll", "hh") else o.add(b"owner-%d" % i, 3)
+            owners[i] = {"obj": o, "path": "/dev/shm/" + o.shm.name}
+            del o
+        elif what == "view":
+            if i in owners:
+                views.setdefault(i, []).append(attach(case.get("attach", "attach_existing_shm"), cfg, owners[i]["obj"]))
+        elif what == "dropview":
+            if views.get(i):
+                v = views[i].pop()
+                del v
+                mon.check(os.path.exists(owners[i]["path"]), "dropping-a-view-keeps-the-segment", cfg=cfg, steps=case["steps"], at=step)
+        elif what == "drop":
+            if i in owners and not views.get(i):
+                ent = owners.pop(i)
+                path = ent["path"]
+                ent.clear()
+                del ent
+                mon.check(not os.path.exists(path), "dropping-the-owner-removes-the-segment", cfg=cfg, steps=case["steps"], at=step,
+                          history="owners and views of several sketches created and dropped in an interleaved order")
+        for j in list(owners):
+            mon.check(os.path.exists(owners[j]["path"]), "a-live-owner-keeps-its-segment", owner=j, steps=case["steps"], at=step)
+            mon.check(content_ok(j), "a-live-owner-keeps-its-contents", owner=j, steps=case["steps"], at=step)
+    for i in list(views):
+        while views[i]:
+            v = views[i].pop()
+            del v
+    for i in list(owners):
+        ent = owners.pop(i)
+        path = ent["path"]
+        ent.clear()
+        mon.check(not os.path.exists(path), "dropping-the-owner-removes-the-segment", steps=case["steps"], at="end")
+    mon.count("interleaved_lifetime_cases")
+    mon.nontrivial(True)
+
+
+def gen_interleaved(rng, ctx):
+    for t, tpl in enumerate(TEMPLATES):
+        for rep in range(2 if ctx.quick else 5):
+            kinds = [state.ALL_KINDS[(t + rep + j) % 5] for j in range(3)]
+            yield {"scenario": "interleaved", "cfgs": [gen_cfg(rng, k) for k in kinds], "steps": list(tpl),
+                   "attach": "attach_existing_shm" if rep % 2 == 0 else "helpers.attach_shared_memory"}
+    for rep in range(6 if ctx.quick else 40):
+        steps, own, nview = [], set(), {}
+        for _ in range(int(rng.integers(8, 20))):
+            r = rng.random()
+            i = int(rng.integers(0, 3))
+            if r < 0.3 and i not in own:
+                steps.append(f"own {i}"); own.add(i)
+            elif r < 0.55 and i in own:
+                steps.append(f"view {i}"); nview[i] = nview.get(i, 0) + 1
+            elif r < 0.8 and nview.get(i):
+                steps.append(f"dropview {i}"); nview[i] -= 1
+            elif i in own and not nview.get(i):
+                steps.append(f"drop {i}"); own.discard(i)
+        yield {"scenario": "interleaved", "cfgs": [gen_cfg(rng, state.ALL_KINDS[int(rng.integers(0, 5))]) for _ in range(3)], "steps": steps}
+
+
 def gen_cases(ctx):
     rng = ctx.rng("cases")
+    yield from gen_interleaved(ctx.rng("interleaved"), ctx)
     n = 250 if ctx.quick else 10**9
     for i in range(n):
         c = gen_case(rng, ctx, state.ALL_KINDS[i % 5])
@@ -519,6 +605,8 @@ def run_any(case, ctx, mon):
         run_cyclic_garbage(case, ctx, mon)
     elif sc == "forked-owner":
         run_forked_owner(case, ctx, mon)
+    elif sc == "interleaved":
+        run_interleaved(case, ctx, mon)
     else:
         run_case(case, ctx, mon)
 
